@@ -60,6 +60,18 @@ FRand(k) ==
     [] k = 7 -> <<"E", <<"set", Rnd(3), RBytes(7)>>>>
     [] k = 8 -> <<"N", <<"other", RandomElement({1 + Rnd(126), 257 + Rnd(126), 641 + Rnd(100), 1281 + Rnd(126), 1793 + Rnd(126)} \ {128, 133, 389, 517, 645, 773, 1541, 1417, 1802, 1803})>>>>
 FNRand == 8
+\* ---- a small alphabet for EXHAUSTIVE search of the product (breadth-first, no random letters): one letter per service and the events
+\*      that couple them (mode changes, resets, ticks); TLC checks InvFull - mode agreement, reset = fresh start of the whole product,
+\*      service frames only in permitted states, armed actions <= pool - on every reachable state
+MiniLetters == {<<"tick">>, <<"nmt", 1, 5>>, <<"nmt", 128, 0>>, <<"nmt", 130, 5>>, <<"apireset", 2>>, <<"setmode", 1>>, <<"bootup">>,
+                <<"N", <<"sdowr", 4119, 0, <<2, 0>>>>>>, <<"N", <<"sdowr", 4119, 0, <<0, 0>>>>>>,
+                <<"P", <<"trig", 1>>>>, <<"P", <<"wr", "a", <<7>>>>>>, <<"P", <<"cfg", "evt", TRUE, 1, 0>>>>,
+                <<"P", <<"cfg", "cid", TRUE, 1, <<133, 1, 0, 192>>>>>>, <<"P", <<"cfg", "cid", TRUE, 1, <<133, 1, 0, 64>>>>>>,
+                <<"E", <<"set", 1, <<>>>>>>, <<"E", <<"clr", 1>>>>, <<"C", <<"up", 4, 2>>>>, <<"C", <<"srv", "ok">>>>}
+MiniGroups == <<MiniLetters>>
+\* thorough tier: STOPPED, the synchronous RPDO, SYNC consumption and the SYNC producer in addition (1.2 M states, 14 M transitions)
+MiniGroupsT == <<MiniLetters \cup {<<"nmt", 2, 5>>, <<"P", <<"rpdo", 773, D1>>>>, <<"P", <<"sync", 128>>>>, <<"P", <<"cfg", "sid", TRUE, 1, <<128, 0, 0, 64>>>>>>}>>
+ViewF == <<s, grp, gh>>
 \* the probe looks at every service, resets the node, and looks again
 Look == << <<"pool">>, <<"N", <<"getmode">>>>, <<"N", <<"sdord", 4119, 0>>>>, <<"N", <<"sdord", 4118, 1>>>>, <<"N", <<"sdord", 4118, 2>>>>, <<"P", <<"rdcfg", "sid", TRUE, 1>>>>, <<"P", <<"rdcfg", "cid", TRUE, 1>>>>,
            <<"E", <<"rdreg">>>>, <<"E", <<"cnt">>>>, <<"E", <<"rdhist", 0>>>>, <<"C", <<"state">>>>,
